@@ -17,7 +17,7 @@ from __future__ import annotations
 import copy
 import itertools
 import random
-from typing import Any, Dict, List
+from typing import Dict, List
 
 from bounded import ahbgen as G
 from specs import validation_spec as S
@@ -196,7 +196,7 @@ def run(ctx, tier: str, seed: int) -> None:
                 exhaustive=False,
                 bound=f"group > [sub-group > segment, segment]; every base expression quadruple from {len(small)} "
                       f"valid expressions x every non-empty subset of the 4 slots faulted; cer/flag rotated")
-    depth, n = (3, 80_000) if thorough else (2, 10_000)
+    depth, n = (3, 80_000) if thorough else (2, 8_000)
     G.run_cases(ctx, f"sampled-trees-depth{depth}", sampled(rng, n, depth, G.POOL_C16_VALID, entry_valid, cers,
                                                               invalids), check_case, MODULE, RULE, exhaustive=False,
                 bound=f"{n} seeded random trees (1-2 root groups, <= {depth} nested group levels, <= 2 children of each "
